@@ -144,3 +144,42 @@ package bitcoin
 //@   property C29
 //@   opt noframe 1
 //@   ensures [var-len-data-is-a-prefix-followed-by-the-script] err == nil ==> (exists p int :: 1 <= p && p <= 9 && len(result0) == p + len(s) && (forall k int :: 0 <= k && k < len(s) ==> result0[p + k] == s[k]))
+
+// C29: the input / output serializations are cut out of the full serialization
+// by sizes computed as (count prefix) + (sum of the element sizes).
+//@ spec func varintSize(n int) int
+//@ spec func wireSize(e ref) int
+//@ spec func sumSizes(a mapof[int]ref, n int) int
+//@ axiom sumSizes-zero: forall a mapof[int]ref, n int :: { @sumSizes(a, n) } n == 0 ==> @sumSizes(a, n) == 0
+//@ axiom sumSizes-step: forall a mapof[int]ref, m int, n int :: { @sumSizes(a, m), @sumSizes(a, n) } n >= 0 && m == n + 1 ==> @sumSizes(a, m) == @sumSizes(a, n) + @wireSize(a[n])
+//@ assume func github.com/btcsuite/btcd/wire.VarIntSerializeSize
+//@   ensures result == @varintSize(arg0) && result >= 1 && result <= 9
+//@ assume func github.com/btcsuite/btcd/wire.TxIn.SerializeSize
+//@   ensures result == @wireSize(recv) && result >= 0
+//@ assume func github.com/btcsuite/btcd/wire.TxOut.SerializeSize
+//@   ensures result == @wireSize(recv) && result >= 0
+
+//@ func Transaction.SerializeOutputs
+//@   property C29
+//@   opt noframe 1
+//@   opt safe none
+//@   arith math
+//@   assert call:Transaction.Serialize : [outputs-size-is-the-count-prefix-plus-every-output] outputsByteSize == @varintSize(len(internal.TxOut)) + @sumSizes(arr(internal.TxOut), len(internal.TxOut))
+//@   loop 1 invariant outputsByteSize == @varintSize(len(internal.TxOut)) + @sumSizes(arr(internal.TxOut), rangeidx1)
+
+//@ func Transaction.SerializeInputs
+//@   property C29
+//@   opt noframe 1
+//@   opt safe none
+//@   arith math
+//@   assert call:Transaction.Serialize : [inputs-size-is-the-count-prefix-plus-every-input] inputsByteSize == @varintSize(len(internal.TxIn)) + @sumSizes(arr(internal.TxIn), len(internal.TxIn)) && startingByte == 4 && endingByte == 4 + inputsByteSize
+//@   loop 1 invariant inputsByteSize == @varintSize(len(internal.TxIn)) + @sumSizes(arr(internal.TxIn), rangeidx1)
+
+// C27: the locking script used for an input is the script of exactly the
+// output the input spends (previous transaction hash AND output index).
+//@ func TransactionBuilder.getScript
+//@   property C27
+//@   opt noframe 1
+//@   opt safe -index
+//@   requires tb != nil && utxo != nil && utxo.Outpoint != nil
+//@   ensures [script-of-the-spent-output] err == nil ==> result0 == @txOf(tb.chain, utxo.Outpoint.TransactionHash).Outputs[int(utxo.Outpoint.OutputIndex)].PublicKeyScript
